@@ -25,7 +25,7 @@ ENGINES = {
 ENGINES["range"] = dict(
     drv="range", starts=("rsetup",),
     trivial=r"^(rsetup .* => ok$)",
-    branches=["rsetup.ok", "rsetup.err", "rreq.new", "rreq.known", "rreq.exhausted", "rreq.maclen-other", "rrestart.ok", "rreq.key-rewritten-by-affinity", "range.time-passes"],
+    branches=["rsetup.ok", "rsetup.err", "rreq.new", "rreq.known", "rreq.exhausted", "rreq.maclen-other", "rrestart.ok", "rreq.key-rewritten-by-affinity", "range.time-passes", "rmoved.ok", "rmoved.refused", "rsetup.lease-out-of-range"],
 )
 ENGINES["prefix"] = dict(
     drv="prefix", starts=("psetup",), diverge_owner=lambda line, pid, msg: pid != "C19",   # C19 only reads the wire round trip off this engine
@@ -296,7 +296,7 @@ PROPS = {
                      "bitset.New returned a set of the requested length (pools up to 2^24 blocks are modelled in the driver)"],
     ),
     "C05": dict(
-        engines=[("alloc6", 6000, 120000), ("alloc4", 6000, 120000), ("bits", 20000, 200000)],
+        engines=[("alloc6", 6000, 120000), ("alloc4", 6000, 120000), ("bits", 20000, 200000), ("range", 1200, 10000)],
         theorems=["C05_alloc6", "C05_alloc4", "C05_noaddr_unchanged6", "C05_noaddr_unchanged4",
                   "C05_progress6", "C05_progress4"],
         modules=["CoreDhcp.Props.C05"],
